@@ -4,34 +4,41 @@
    Inv/Jitrestrict_func.v (partial correctness through [run_sound], functional loop invariants):
 
      for EVERY time array ts (integer ticks; no sortedness needed), every interval list ep with
-     start <= end, and every EVEN bin size b = 2h > 0 ticks, running the translated kernel on the
+     start <= end, and EVERY bin size b > 0 ticks (even or odd), running the translated kernel on the
      arrays of ts / starts ep / ends ep and the float b * 1e-9 returns, whenever it returns, exactly
        [ array of the bin centres ; array of the counts ]   of   count_binned ts ep b,
-     the doubled centre c2 of the model being the float (c2 / 2) * 1e-9 ([qhalf c2]).
+     the doubled centre c2 of the model being reported as the float np.round(c2 / 2 * 1e-9, 9), i.e. the
+     tick [centre_tick c2]: c2 / 2 when c2 is even (always the case for an even b), and for an odd c2 the
+     EVEN one of the two ticks next to the half tick c2 / 2 (round half to even) ([ccell]).
 
    Times: a tick t is the float t * 1e-9, the reduced fraction [qtick t] (Inv/Jitfix_iset_func.v): the
    kernel computes in seconds (ends - starts > bin_size, ceil((e + bin - s) / bin), lbound + bin / 2,
-   np.round(., 9)); on the tick lattice every intermediate is an exact rational and np.round(., 9) is the
-   identity ([round9_q]).  The call of jitrestrict_with_count is discharged with its own functional
+   2 * lbound + bin, 2 * ends[k], np.round(., 9)); on the tick lattice every intermediate is an exact
+   rational, np.round(., 9) is the identity on ticks ([round9_q]) and rounds a half tick to the even
+   neighbour ([round9_half]).  The call of jitrestrict_with_count is discharged with its own functional
    theorem, re-proved here for the [qtick] embedding ([k_jitrestrict_with_count_computes_model_q], same
    invariants and transition lemmas as Inv/Jitrestrict_with_count_func.v), together with its safety
    contract (index bounds of the gather).
 
    Hypotheses, all needed:
    - start <= end for every interval: needed by the callee (see Inv/Jitrestrict_with_count_func.v);
-   - b > 0: the kernel divides by bin_size;
-   - b even: for an odd b the centres lbound + b/2 are half ticks and np.round(., 9) rounds them to a
-     neighbouring tick (half to even); the kernel then compares the ROUNDED centre with the end, the
-     model the exact one, and the two differ: [odd_bin_size_differs] below (ts = [0], ep = [(0,0)],
-     b = 1: the kernel reports one bin, centre 0, count 1; the model reports none).
-   Neither sortedness of ts nor separation/order of the intervals is needed. *)
+   - b > 0: the kernel divides by bin_size.
+   Neither sortedness of ts nor separation/order of the intervals is needed, and NO parity condition on b:
+   the kernel decides whether a bin is reported with  np.round(2 * lbound + bin_size, 9) > 2 * ends[k],
+   the doubled exact centre against the doubled end, which is the test [2 * e <? 2 * lb + b] of the model.
+   HISTORY: before that repair the kernel compared the ROUNDED centre (xpos > ends[k]); for an odd b the
+   centre is a half tick, np.round moved a centre half a tick beyond the end onto the end, and the bin was
+   reported: the refinement then held for even b only.  [k_jitcount_before_fix] (Inv/Findings.v) is the
+   frozen translation of that text and [odd_bin_size_differs] below the computed witness (ts = [0],
+   ep = [(0,0)], b = 1: the old kernel reports one bin, centre 0, count 1; the model and the repaired
+   kernel report none). *)
 From Coq Require Import ZArith QArith Qround String List Bool Lia.
 From Verif Require Import Base.Prelude Model.Restrict Model.Count Proofs.BaseLemmas Proofs.RestrictProofs
   Proofs.CountProofs.
 From Verif Require Import Jit.Lang Jit.Interp Jit.Safety Jit.Tactics Jit.ArrayFacts Jit.FloatFacts Gen.Kernels.
 From Verif Require Import Inv.Jitrestrict_with_count.
 From Verif Require Import Inv.Jitfix_iset_func.
-From Verif Require Import Inv.Jitrestrict_func Inv.Jitrestrict_with_count_func.
+From Verif Require Import Inv.Jitrestrict_func Inv.Jitrestrict_with_count_func Inv.Findings.
 Import ListNotations.
 Open Scope Z_scope.
 
@@ -66,13 +73,6 @@ Proof.
   rewrite qtick_eq. unfold Qeq, Qmult, inject_Z, e9. simpl. lia.
 Qed.
 
-(* bin_size / 2 for an even bin size *)
-Lemma fdiv2_q : forall h, fdiv (Some (qtick (2 * h))) (Some (qz 2)) = Some (qtick h).
-Proof.
-  intros h. unfold fdiv, f2, qsome. change (Qeq_bool (qz 2) 0) with false. cbv iota. f_equal. unfold qtick at 2. apply Qred_complete.
-  rewrite qtick_eq. unfold Qeq, Qdiv, Qmult, Qinv, qz, inject_Z. simpl. lia.
-Qed.
-
 Lemma Qceiling_frac : forall x (p : positive), Qceiling (x # p) = (x + Zpos p - 1) / Zpos p.
 Proof.
   intros x p. unfold Qceiling, Qfloor. simpl.
@@ -94,10 +94,71 @@ Proof.
   rewrite E. rewrite Qceiling_frac. reflexivity.
 Qed.
 
-(* doubled centres *)
+(* doubled centres: [qhalf c] is the float (c / 2) * 1e-9, a tick or a half tick *)
 Definition qhalf (c : Z) : Q := Qred (c # 2000000000).
+Lemma qhalf_eq : forall c, (qhalf c == c # 2000000000)%Q.
+Proof. intros. unfold qhalf. apply Qred_correct. Qed.
 Lemma qhalf_even : forall x, qhalf (2 * x) = qtick x.
 Proof. intros. unfold qhalf, qtick. apply Qred_complete. unfold Qeq. simpl. lia. Qed.
+
+(* bin_size / 2 *)
+Lemma fdiv2_half : forall b, fdiv (Some (qtick b)) (Some (qz 2)) = Some (qhalf b).
+Proof.
+  intros b. unfold fdiv, f2, qsome. change (Qeq_bool (qz 2) 0) with false. cbv iota. f_equal. unfold qhalf. apply Qred_complete.
+  rewrite qtick_eq. unfold Qeq, Qdiv, Qmult, Qinv, qz, inject_Z. simpl. lia.
+Qed.
+(* lbound + bin_size / 2 *)
+Lemma fadd_q_half : forall a c, fadd (Some (qtick a)) (Some (qhalf c)) = Some (qhalf (2 * a + c)).
+Proof.
+  intros a c. unfold fadd, f2, qsome. f_equal. unfold qhalf at 2. apply Qred_complete.
+  rewrite qtick_eq, qhalf_eq. unfold Qeq, Qplus. simpl. lia.
+Qed.
+(* 2 * lbound, 2 * ends[k] *)
+Lemma fmul2_q : forall a, fmul (Some (qz 2)) (Some (qtick a)) = Some (qtick (2 * a)).
+Proof.
+  intros a. unfold fmul, f2, qsome. f_equal. unfold qtick at 2. apply Qred_complete.
+  rewrite qtick_eq. unfold Qeq, Qmult, qz, inject_Z. simpl. lia.
+Qed.
+
+(* np.round(., 9) of a doubled centre: the tick itself, or for a half tick its even neighbour *)
+Definition centre_tick (c : Z) : Z :=
+  if Z.even c then c / 2 else if Z.even (c / 2) then c / 2 else c / 2 + 1.
+Lemma centre_tick_even : forall x, centre_tick (2 * x) = x.
+Proof.
+  intros x. unfold centre_tick. rewrite Z.even_mul. simpl. rewrite Z.mul_comm, Z.div_mul by lia. reflexivity.
+Qed.
+Lemma centre_tick_near : forall c, Z.abs (2 * centre_tick c - c) <= 1.
+Proof.
+  intros c. unfold centre_tick. pose proof (Z.div_mod c 2 ltac:(lia)). pose proof (Zmod_even c) as M.
+  destruct (Z.even c); [|destruct (Z.even (c / 2))]; lia.
+Qed.
+
+Lemma q_rhe_comp : forall p q, (p == q)%Q -> q_rhe p = q_rhe q.
+Proof.
+  intros p q H. unfold q_rhe. rewrite (Qfloor_comp _ _ H).
+  assert (C : Qcompare (p - qz (Qfloor q)) (1 # 2) = Qcompare (q - qz (Qfloor q)) (1 # 2)) by (rewrite H; reflexivity).
+  rewrite C. reflexivity.
+Qed.
+Lemma q_rhe_half : forall c, q_rhe (c # 2) = centre_tick c.
+Proof.
+  intros c. unfold q_rhe, centre_tick.
+  assert (F : Qfloor (c # 2) = c / 2) by reflexivity. rewrite F.
+  pose proof (Z.div_mod c 2 ltac:(lia)) as D. pose proof (Zmod_even c) as M.
+  destruct (Z.even c) eqn:E.
+  - assert (C : Qcompare ((c # 2) - qz (c / 2))%Q (1 # 2)%Q = Datatypes.Lt).
+    { apply -> Qlt_alt. unfold Qlt, Qminus, Qplus, Qopp, qz, inject_Z. simpl. lia. }
+    rewrite C. reflexivity.
+  - assert (C : Qcompare ((c # 2) - qz (c / 2))%Q (1 # 2)%Q = Datatypes.Eq).
+    { apply -> Qeq_alt. unfold Qeq, Qminus, Qplus, Qopp, qz, inject_Z. simpl. lia. }
+    rewrite C. reflexivity.
+Qed.
+Lemma round9_half : forall c, round9 (qhalf c) = qtick (centre_tick c).
+Proof.
+  intros c. unfold round9.
+  assert (E : (qhalf c * (Z.pos e9 # 1) == c # 2)%Q).
+  { rewrite qhalf_eq. unfold Qeq, Qmult, e9. simpl. lia. }
+  rewrite (q_rhe_comp _ _ E), q_rhe_half. reflexivity.
+Qed.
 
 (* the tick of a float on the lattice *)
 Definition tick_of (v : sval) : Z :=
@@ -273,9 +334,6 @@ Proof.
   apply (map_nth qcell).
 Qed.
 
-Lemma fdiv2_q' : forall B h, B = 2 * h -> fdiv (Some (qtick B)) (Some (qz 2)) = Some (qtick h).
-Proof. intros B h ->. apply fdiv2_q. Qed.
-
 Lemma nb_cell : forall x b, 0 < b ->
   to_int (eval_unop ToInt (eval_unop Ceil (VFlt (fdiv (Some (qtick x)) (Some (qtick b)))))) = cdiv x b.
 Proof.
@@ -284,16 +342,15 @@ Proof.
 Qed.
 
 (* ---------- the model, indexed by positions ---------- *)
-Definition ccell (p : Z * nat) : sval := VFlt (Some (qhalf (fst p))).
+Definition ccell (p : Z * nat) : sval := VFlt (Some (qtick (centre_tick (fst p)))).
 Definition ncell (p : Z * nat) : sval := VInt (Z.of_nat (snd p)).
 Definition cf (p : Z * list Z) : Z * nat := let '(c, l) := p in (c, length l).
 
 Section Model.
 Variable ts : list Z.
 Variable ep : iset.
-Variable B h : Z.
-Hypothesis HB : B = 2 * h.
-Hypothesis Hh : 0 < h.
+Variable B : Z.
+Hypothesis HB : 0 < B.
 
 Notation sk := (Jitrestrict_func.sk ep).
 Notation ek := (Jitrestrict_func.ek ep).
@@ -499,9 +556,9 @@ Proof.
   rewrite seg_smp by assumption. reflexivity.
 Qed.
 
-(* the bin loop stops: on the break (centre beyond the end) or with no bin left *)
+(* the bin loop stops: on the break (doubled centre beyond the doubled end) or with no bin left *)
 Lemma T3_break : forall k b0 maxb maxt bi t bins cnt,
-  Inv4 k b0 maxb maxt bi t bins cnt -> ek k < lbz k b0 bi + h -> Inv3 (k + 1) bi bins cnt.
+  Inv4 k b0 maxb maxt bi t bins cnt -> 2 * ek k < 2 * lbz k b0 bi + B -> Inv3 (k + 1) bi bins cnt.
 Proof.
   intros k b0 maxb maxt bi t bins cnt (L & R & E) Hlt. unfold Inv3. rewrite <- E.
   destruct (Z.to_nat (maxb - bi)) as [|f]; simpl.
@@ -543,11 +600,11 @@ Qed.
 
 (* one bin is closed *)
 Lemma T4_step : forall k b0 maxb maxt bi t0 bins cnt0 t cnt,
-  Inv4 k b0 maxb maxt bi t0 bins cnt0 -> b0 <= bi < maxb -> lbz k b0 bi + h <= ek k ->
+  Inv4 k b0 maxb maxt bi t0 bins cnt0 -> b0 <= bi < maxb -> 2 * lbz k b0 bi + B <= 2 * ek k ->
   Inv6 (lbz k b0 bi + B) bi t0 maxt cnt0 t cnt -> t0 <= t <= maxt -> 0 <= t0 ->
   (t = maxt \/ (t < zlen Gz /\ lbz k b0 bi + B <= tk Gz t)) ->
   0 <= bi < zlen bins -> zlen cnt0 = zlen bins ->
-  Inv4 k b0 maxb maxt (bi + 1) t (updZ bins bi (VFlt (Some (qtick (lbz k b0 bi + h))))) cnt.
+  Inv4 k b0 maxb maxt (bi + 1) t (updZ bins bi (VFlt (Some (qtick (centre_tick (2 * lbz k b0 bi + B)))))) cnt.
 Proof.
   intros k b0 maxb maxt bi t0 bins cnt0 t cnt (L & (R1 & R2 & R3 & R4) & E) Hb Hc (-> & E1 & E2) Ht H0 X Hbb Hz.
   assert (SP : span_lt (lbz k b0 bi + B) (seg t maxt) = ([], seg t maxt)).
@@ -562,8 +619,7 @@ Proof.
   exists (L ++ [(2 * lbz k b0 bi + B, length a)])%list. split.
   - unfold Rep. repeat split.
     + unfold zlen in *. rewrite app_length. simpl. lia.
-    + rewrite firstn_updZ_snoc by lia. rewrite R2, map_app. simpl. f_equal. unfold ccell. simpl.
-      replace (2 * lbz k b0 bi + B) with (2 * (lbz k b0 bi + h)) by lia. rewrite qhalf_even. reflexivity.
+    + rewrite firstn_updZ_snoc by lia. rewrite R2, map_app. reflexivity.
     + rewrite firstn_updZ_snoc by lia. rewrite R3, map_app. simpl. f_equal. unfold ncell. simpl.
       f_equal. f_equal. lia.
     + intros j Hj. unfold updZ. rewrite nth_upd_nth_other by lia. apply R4. lia.
@@ -639,7 +695,7 @@ Proof.
   autorewrite with zlen in *. split; [reflexivity|]. split; [reflexivity|]. split; [exact S1|]. split; [exact S2 | exact S3].
 Qed.
 
-#[local] Hint Rewrite fadd_q fsub_q round9_q tick_of_q cmp_lt_q cmp_gt_q cmp_ge_q : qt.
+#[local] Hint Rewrite fadd_q fsub_q fmul2_q fadd_q_half round9_q round9_half tick_of_q cmp_lt_q cmp_gt_q cmp_ge_q : qt.
 
 (* facts about the cells and prefix sums of the two integer arrays (nb_bins, countin), with their
    side conditions discharged, so that the arithmetic goals are plain linear problems *)
@@ -672,24 +728,23 @@ Ltac saturate :=
              end
          end.
 
-Lemma k_jitcount_computes_model_2h : forall ts ep h fuel,
-  Forall (fun I => fst I <= snd I) ep -> 0 < h ->
-  match run fuel k_jitcount (jitcount_args ts ep (2 * h)) with
-  | Return rs => rs = count_result (count_binned ts ep (2 * h))
+Theorem k_jitcount_computes_model : forall ts ep B fuel,
+  Forall (fun I => fst I <= snd I) ep -> 0 < B ->
+  match run fuel k_jitcount (jitcount_args ts ep B) with
+  | Return rs => rs = count_result (count_binned ts ep B)
   | OutOfFuel => True
   | _ => False
   end.
 Proof.
-  intros ts ep h fuel Hep Hh.
-  pose proof (run_sound all_kernels (ann_func ts ep (2 * h)) k_jitcount
-                (fun rs => rs = count_result (count_binned ts ep (2 * h))) (jitcount_args ts ep (2 * h)) fuel) as RS.
+  intros ts ep B fuel Hep HB.
+  pose proof (run_sound all_kernels (ann_func ts ep B) k_jitcount
+                (fun rs => rs = count_result (count_binned ts ep B)) (jitcount_args ts ep B) fuel) as RS.
   unfold run.
   match type of RS with ?P -> _ => assert (W : P) end.
   2: { specialize (RS W). unfold Interp.run in *.
-       destruct (exec all_kernels fuel (fbody k_jitcount) (init_store k_jitcount (jitcount_args ts ep (2 * h))));
+       destruct (exec all_kernels fuel (fbody k_jitcount) (init_store k_jitcount (jitcount_args ts ep B)));
          simpl in *; auto. }
   clear RS. unfold jitcount_args.
-  remember (2 * h) as B eqn:HB.
   wp_compute k_jitcount ann_func. rewrite find_rwc. wp_compute k_jitcount ann_func.
   lazy beta iota delta [post_q].
   vc k_jitcount ann_func.
@@ -715,7 +770,7 @@ Proof.
          end.
   (* the gathered samples, the cells of the argument arrays, the float arithmetic on the tick lattice *)
   all: repeat match goal with Hq : ?q = Some (qtick _) |- _ => is_var q; subst q end.
-  all: try rewrite (fdiv2_q' B h HB) in *.
+  all: try rewrite fdiv2_half in *.
   all: try match goal with
          | H2 : ?d0 = index_cells (restrict_idx _ _), H3 : idx_ok (zlen _) ?d0 = true |- _ =>
              pose proof (zlen_Gz ts ep) as HGz; rewrite <- H2 in HGz;
@@ -742,12 +797,12 @@ Proof.
   all: try match goal with
          | |- nonneg_ints (updZ _ _ (VInt 1)) => apply nonneg_updZ; [assumption | lia]
          | |- nonneg_ints (updZ _ _ (VInt (cdiv ?x _))) =>
-             apply nonneg_updZ; [assumption | pose proof (cdiv_pos B h HB Hh x ltac:(lia)); lia]
+             apply nonneg_updZ; [assumption | pose proof (cdiv_pos B HB x ltac:(lia)); lia]
          | |- Inv1 _ _ (_ + 1) (updZ _ _ (VInt 1)) =>
              apply T1_step; [assumption | lia | symmetry; apply nbz_le; unfold Jitrestrict_func.sk, Jitrestrict_func.ek; lia]
          | |- Inv1 _ _ (_ + 1) (updZ _ _ (VInt (cdiv _ _))) =>
              apply T1_step; [assumption | lia
-                            | symmetry; apply (nbz_gt ep B h HB Hh); unfold Jitrestrict_func.sk, Jitrestrict_func.ek; lia]
+                            | symmetry; apply (nbz_gt ep B HB); unfold Jitrestrict_func.sk, Jitrestrict_func.ek; lia]
          end.
   (* loop 3 / loop 4 *)
   all: try match goal with
@@ -758,8 +813,8 @@ Proof.
              [ lia | apply (Inv1_nth ep B _ d k I1); lia
              | rewrite Ht, H1; apply psum_countin; lia
              | rewrite H1; apply nth_countin; lia ]
-         | I4 : Inv4 _ _ _ ?k ?b0 ?maxb ?maxt ?bi ?t ?bins ?cnt, Hc : _ < lbz _ _ _ _ _ + _ |- Inv3 _ _ _ (?k + 1) ?bi ?bins ?cnt =>
-             apply (T3_break ts ep B h HB k b0 maxb maxt bi t bins cnt I4); unfold Jitrestrict_func.ek; lia
+         | I4 : Inv4 _ _ _ ?k ?b0 ?maxb ?maxt ?bi ?t ?bins ?cnt, Hc : _ < 2 * lbz _ _ _ _ _ + _ |- Inv3 _ _ _ (?k + 1) ?bi ?bins ?cnt =>
+             apply (T3_break ts ep B k b0 maxb maxt bi t bins cnt I4); unfold Jitrestrict_func.ek; lia
          | I4 : Inv4 _ _ _ ?k ?b0 ?maxb ?maxt ?bi ?t ?bins ?cnt |- Inv3 _ _ _ (?k + 1) ?bi ?bins ?cnt =>
              apply (T3_done ts ep B k b0 maxb maxt bi t bins cnt I4); lia
          end.
@@ -774,7 +829,7 @@ Proof.
   all: try match goal with
          | I4 : Inv4 _ _ _ ?k ?b0 ?maxb ?maxt ?bi ?t0 ?bins ?cnt0, I6 : Inv6 _ _ _ ?bi ?t0 ?maxt ?cnt0 ?t ?cnt
            |- Inv4 _ _ _ ?k ?b0 ?maxb ?maxt (?bi + 1) ?t (updZ ?bins ?bi _) ?cnt =>
-             apply (T4_step ts ep B h HB k b0 maxb maxt bi t0 bins cnt0 t cnt I4);
+             apply (T4_step ts ep B k b0 maxb maxt bi t0 bins cnt0 t cnt I4);
              [ lia | unfold Jitrestrict_func.ek; lia | exact I6 | lia | lia
              | lazymatch goal with
                | _ : maxt <= t |- _ => left; lia
@@ -789,46 +844,92 @@ Proof.
          end.
 Qed.
 
-Theorem k_jitcount_computes_model : forall ts ep b fuel,
-  Forall (fun I => fst I <= snd I) ep -> 0 < b -> Z.even b = true ->
-  match run fuel k_jitcount (jitcount_args ts ep b) with
-  | Return rs => rs = count_result (count_binned ts ep b)
-  | OutOfFuel => True
-  | _ => False
-  end.
-Proof.
-  intros ts ep b fuel Hep Hb He. apply Z.even_spec in He. destruct He as [h ->].
-  apply k_jitcount_computes_model_2h; [assumption | lia].
-Qed.
-
 (* with the specification of the model (C05, Proofs/CountProofs.v): for sorted time stamps and a canonical
    interval set the translated kernel returns the bin grid and the per-bin counts the property states *)
-Corollary k_jitcount_spec : forall ts ep b fuel, sortedZ ts -> canonical ep -> 0 < b -> Z.even b = true ->
+Corollary k_jitcount_spec : forall ts ep b fuel, sortedZ ts -> canonical ep -> 0 < b ->
   match run fuel k_jitcount (jitcount_args ts ep b) with
   | Return rs => rs = count_result (count_spec ts ep b)
   | OutOfFuel => True
   | _ => False
   end.
 Proof.
-  intros ts ep b fuel Hs Hc Hb He.
-  pose proof (k_jitcount_computes_model ts ep b fuel (canonical_proper ep Hc) Hb He) as H.
+  intros ts ep b fuel Hs Hc Hb.
+  pose proof (k_jitcount_computes_model ts ep b fuel (canonical_proper ep Hc) Hb) as H.
   rewrite (count_binned_spec ts ep b Hb Hs Hc) in H. exact H.
 Qed.
 
-(* not vacuous: with enough fuel the kernel does return (termination itself is not proved) *)
+(* for an even bin size every doubled centre of the model is even, and the reported centre is the exact
+   float (c2 / 2) * 1e-9 = [qhalf c2] (the form in which the refinement was stated when it was proved for
+   even bin sizes only) *)
+Definition ccell_exact (p : Z * nat) : sval := VFlt (Some (qhalf (fst p))).
+Definition count_result_exact (R : list (Z * nat)) : list value :=
+  [Ar (A1 DFlt (map ccell_exact R)); Ar (A1 DInt (map ncell R))].
+
+Lemma bins_go_centres : forall f lb e b l, Z.even b = true ->
+  Forall (fun p => Z.even (fst p) = true) (bins_go f lb e b l).
+Proof.
+  induction f as [|f IH]; intros lb e b l Hb; simpl; [constructor|].
+  destruct (2 * e <? 2 * lb + b)%Z; [constructor|].
+  destruct (span_lt (lb + b)%Z l) as [a c]. constructor; [|apply IH; exact Hb].
+  simpl. rewrite Z.even_add, Z.even_mul, Hb. reflexivity.
+Qed.
+Lemma count_binned_centres : forall ts ep b, Z.even b = true ->
+  Forall (fun p => Z.even (fst p) = true) (count_binned ts ep b).
+Proof.
+  intros ts ep b Hb. unfold count_binned. apply Forall_concat. apply Forall_map. apply Forall_forall.
+  intros [[s e] smp0] _. apply Forall_map.
+  eapply Forall_impl; [|apply (bins_go_centres _ s e b smp0 Hb)]. intros [c l] H. exact H.
+Qed.
+Lemma count_result_even : forall R, Forall (fun p => Z.even (fst p) = true) R ->
+  count_result R = count_result_exact R.
+Proof.
+  intros R H. unfold count_result, count_result_exact. do 3 f_equal.
+  induction H as [|p r Hp _ IH]; [reflexivity|]. simpl. rewrite IH. f_equal.
+  unfold ccell, ccell_exact. apply Z.even_spec in Hp. destruct Hp as [x ->].
+  rewrite centre_tick_even, qhalf_even. reflexivity.
+Qed.
+Corollary k_jitcount_computes_model_even : forall ts ep b fuel,
+  Forall (fun I => fst I <= snd I) ep -> 0 < b -> Z.even b = true ->
+  match run fuel k_jitcount (jitcount_args ts ep b) with
+  | Return rs => rs = count_result_exact (count_binned ts ep b)
+  | OutOfFuel => True
+  | _ => False
+  end.
+Proof.
+  intros ts ep b fuel Hep Hb He.
+  rewrite <- (count_result_even _ (count_binned_centres ts ep b He)).
+  apply k_jitcount_computes_model; assumption.
+Qed.
+
+(* not vacuous: with enough fuel the kernel does return (termination: Inv/Jitcount_term.v) *)
 Example k_jitcount_runs :
   run 200 k_jitcount (jitcount_args [0; 5; 9; 12] [(4, 6); (8, 20)] 4)
   = Return (count_result [(12, 1%nat); (20, 1%nat); (28, 1%nat); (36, 0%nat)]).
 Proof. vm_compute. reflexivity. Qed.
+(* an odd bin size (3 ticks, interval [4, 10]): bins [4,7) [7,10), doubled centres 11 and 17, reported on the
+   even neighbours 6 and 8 of the half ticks 5.5 and 8.5; the third centre 11.5 lies beyond the end 10 *)
+Example k_jitcount_runs_odd :
+  run 200 k_jitcount (jitcount_args [0; 5; 9; 12] [(4, 10)] 3)
+  = Return (count_result [(11, 1%nat); (17, 1%nat)])
+  /\ count_result [(11, 1%nat); (17, 1%nat)]
+     = [Ar (A1 DFlt [VFlt (Some (qtick 6)); VFlt (Some (qtick 8))]); Ar (A1 DInt [VInt 1; VInt 1])].
+Proof. split; vm_compute; reflexivity. Qed.
 
-(* the evenness hypothesis is needed: with an odd bin size the kernel (which compares the centre ROUNDED to
-   the nanosecond, half to even, with the end of the interval) and the model (which compares the exact
-   centre) report different bins *)
+(* HISTORY: the kernel text before the repair ([k_jitcount_before_fix], Inv/Findings.v: `xpos > ends[k]`, the
+   centre ROUNDED to the nanosecond, half to even, compared with the end of the interval) and the model
+   (which compares the exact centre) reported different bins for an odd bin size; the repaired text agrees with
+   the model on the same input *)
 Example odd_bin_size_differs :
-  run 200 k_jitcount (jitcount_args [0] [(0, 0)] 1) = Return [Ar (A1 DFlt [VFlt (Some 0%Q)]); Ar (A1 DInt [VInt 1])]
+  run 200 k_jitcount_before_fix (jitcount_args [0] [(0, 0)] 1)
+  = Return [Ar (A1 DFlt [VFlt (Some 0%Q)]); Ar (A1 DInt [VInt 1])]
   /\ count_binned [0] [(0, 0)] 1 = [].
+Proof. split; vm_compute; reflexivity. Qed.
+Example odd_bin_size_repaired :
+  run 200 k_jitcount (jitcount_args [0] [(0, 0)] 1) = Return (count_result (count_binned [0] [(0, 0)] 1))
+  /\ count_result (count_binned [0] [(0, 0)] 1) = [Ar (A1 DFlt []); Ar (A1 DInt [])].
 Proof. split; vm_compute; reflexivity. Qed.
 
 Print Assumptions k_jitrestrict_with_count_computes_model_q.
 Print Assumptions k_jitcount_computes_model.
 Print Assumptions k_jitcount_spec.
+Print Assumptions k_jitcount_computes_model_even.
